@@ -63,6 +63,16 @@ def reg_cases(rng, quick, pairs=True):
         s = regsim.RScn(fmt, kinds[0])
         pd, reg = regsim.build(s)
         yield f"baseline/{fmt}", regrun.policy_of(pd), reg, "dict", "accept", s
+        if fmt == "packed":
+            s = regsim.RScn(fmt, kinds[0])
+            s.k["leaf_no_bc"] = True
+            pd, reg = regsim.build(s)
+            yield f"baseline/{fmt}/leaf-without-basic-constraints", regrun.policy_of(pd), reg, "dict", "accept", s
+            s = regsim.RScn(fmt, kinds[0])
+            s.k["leaf_no_bc"] = True
+            regcat.att_other_key(s, rng)
+            pd, reg = regsim.build(s)
+            yield f"signed-by-other-key/{fmt}/leaf-without-basic-constraints", regrun.policy_of(pd), reg, "dict", "reject", s
         for i, (name, f) in enumerate(regcat.CEREMONY.items()):
             if quick and (i + regsim.FORMATS.index(fmt)) % 2:
                 continue
